@@ -350,6 +350,52 @@ def check_connection(case):
     return None
 
 
+def check_array_bundle_port(kind):
+    """an instance ARRAY (and a Pair) of children with a bundle-valued port, connected to the whole bundle, to an anonymous
+    bundle, to a dictionary, to a sub-bundle reference: every element gets every member (broadcast), as for a plain instance"""
+    import hdl21 as h
+    from rtc.meaning import meaning, package_meaning, compare, InvalidPackage, Unsupported as OracleUnsupported
+    w = {"case": repr(("arraybundle", kind))}
+    T = h.ExternalModule(name="ATap", port_list=[h.Inout(name="a")], desc="", domain="c10a")
+    Bn = h.Bundle(name="ABn")
+    Bn.add(h.Signal(name="x"))
+    Bn.add(h.Signal(name="y"))
+    Outer = h.Bundle(name="AOuter")
+    Outer.add(Bn(), name="inner")
+    child = h.Module(name="AChild")
+    child.bp = Bn(port=True)
+    child.tx, child.ty = T()(a=child.bp.x), T()(a=child.bp.y)
+    parent = h.Module(name="AParent")
+    parent.pb = Bn()
+    parent.ob = Outer()
+    parent.s, parent.t = h.Signal(), h.Signal()
+    parent.px, parent.py, parent.ps, parent.pt = T()(a=parent.pb.x), T()(a=parent.pb.y), T()(a=parent.s), T()(a=parent.t)
+    parent.pix = T()(a=parent.ob.inner.x)
+    target, conn = kind.split("/")
+    c = {"whole": lambda: parent.pb, "anon": lambda: h.AnonymousBundle(x=parent.s, y=parent.pb.y), "dict": lambda: dict(x=parent.pb.x, y=parent.t),
+         "bundlize": lambda: h.bundlize(y=parent.s, x=parent.t), "sub-bundle-ref": lambda: parent.ob.inner}[conn]()
+    inst = child(bp=c)
+    parent.i = {"instance": lambda: inst, "array2": lambda: 2 * inst, "array1": lambda: 1 * inst}[target]()
+    try:
+        want = meaning(parent)
+    except OracleUnsupported as e:
+        return None
+    try:
+        pkg = h.to_proto(parent)
+    except Exception as e:
+        return (f"connection.raises.{type(e).__name__}", f"{kind}: valid bundle connection rejected: {type(e).__name__}: {str(e)[-140:]}", w)
+    try:
+        diff = compare(want, package_meaning(pkg, parent.name))
+    except InvalidPackage as e:
+        diff = [f"the exported package is not a circuit: {e}"]
+    if diff:
+        return ("connection.members-disagree", f"{kind}: {diff[0][:260]}", w)
+    return None
+
+
+ARRAY_BUNDLE_CASES = [f"{t}/{c}" for t in ("instance", "array2", "array1") for c in ("whole", "anon", "dict", "bundlize", "sub-bundle-ref")]
+
+
 def naming_conn_cases():
     """bundle connections in which the NAMES on the two sides differ or collide: whole bundle instances handed over as
     members of an anonymous bundle under other names (crossed, renamed); a child whose flattened leaves want one name
@@ -680,6 +726,10 @@ def run(ctx):
                          "use: one exported port per leaf of the definition as it stands (widths, directions), and a parent "
                          "connecting the whole bundle / an anonymous bundle of its members: leaf-level partition == reference",
                     bound="9 definitions x 2 connections", key_of=repr)
+    ctx.run_bounded("bundle-ports-of-arrays", ARRAY_BUNDLE_CASES, check_array_bundle_port,
+                    rule="an instance / array of 2 / array of 1 of a child with a bundle-valued port, connected to the whole bundle, "
+                         "an anonymous bundle, a dictionary, bundlize(), a sub-bundle reference: leaf-level partition == reference",
+                    bound="3 targets x 5 connections", key_of=repr)
     ctx.run_bounded("bundle-connections-under-name-pressure", naming_conn_cases(), check_naming_connection,
                     rule="whole bundle instances handed over as members of an anonymous bundle under other names (crossed, "
                          "renamed, nested); a child whose flattened leaves want one name (b.c.x / b_c.x / a scalar b_c_x) "
@@ -695,6 +745,6 @@ def replay(payload):
     if not c:
         return 2
     case = eval(c)
-    r = check_connection(case[1:]) if case[0] == "conn" else check_naming_connection(case) if case[0] == "naming" else check_members(case[1]) if case[0] == "members" else check_tree(case)
+    r = check_connection(case[1:]) if case[0] == "conn" else check_naming_connection(case) if case[0] == "naming" else check_members(case[1]) if case[0] == "members" else check_array_bundle_port(case[1]) if case[0] == "arraybundle" else check_tree(case)
     print("replay:", r)
     return 1 if r else 0
